@@ -125,6 +125,7 @@ type witness struct {
 	callee *ssa.Function // non-nil: effect comes from a call
 	cloc   loc           // location in the callee's summary
 	fn     *ssa.Function
+	ins    ssa.Instruction // the writing instruction (direct writes) or call
 }
 
 // exported describes a set of values leaving a function: the non-fresh roots,
@@ -376,6 +377,27 @@ type fa struct {
 	weakSites map[rootID]bool // fresh sites that may not be strongly updated
 	changed   bool
 	nParams   int
+
+	collect  bool
+	events   []wevent
+	curArgs  []locSet
+	curCall  ssa.Instruction
+	retCells []retInfo
+}
+
+// wevent is one write to non-fresh memory observed in collect mode.
+type wevent struct {
+	target loc
+	w      witness
+	args   []locSet        // argument sets when the write comes from a call
+	site   ssa.Instruction // the call instruction, if any
+}
+
+// retInfo captures the state of returned fresh objects at a return.
+type retInfo struct {
+	ins  *ssa.Return
+	vals []locSet
+	st   memState
 }
 
 type cell struct {
@@ -462,8 +484,18 @@ func (c *cell) load(f int) locSet {
 }
 
 func (e *Effects) analyse(fn *ssa.Function) bool {
+	return e.run(fn, false).changed
+}
+
+// Collect re-analyses fn at the fixed point and returns every write to
+// non-fresh memory together with the state at each return.
+func (e *Effects) Collect(fn *ssa.Function) *fa {
+	return e.run(fn, true)
+}
+
+func (e *Effects) run(fn *ssa.Function, collect bool) *fa {
 	a := &fa{e: e, fn: fn, sum: e.sums[fn], val: map[ssa.Value]locSet{}, tuple: map[ssa.Value][]locSet{},
-		weakSites: map[rootID]bool{}, nParams: len(fn.Params)}
+		weakSites: map[rootID]bool{}, nParams: len(fn.Params), collect: collect}
 	inLoop := loopBlocks(fn)
 	for _, b := range fn.Blocks {
 		for _, ins := range b.Instrs {
@@ -519,7 +551,7 @@ func (e *Effects) analyse(fn *ssa.Function) bool {
 			}
 		}
 	}
-	return a.changed
+	return a
 }
 
 func loopBlocks(fn *ssa.Function) map[int]bool {
@@ -732,6 +764,11 @@ func (a *fa) write(st memState, addr locSet, vs locSet, strongOK bool, w witness
 		}
 		ww := w
 		a.noteWrite(wl, &ww)
+		if a.collect {
+			w2 := w
+			w2.fn = a.fn
+			a.events = append(a.events, wevent{target: wl, w: w2, args: a.curArgs, site: a.curCall})
+		}
 		if ri.kind == rkParam || ri.kind == rkParamVia {
 			if len(vs) > 0 {
 				ex := a.export(st, vs)
@@ -749,7 +786,16 @@ func (a *fa) write(st memState, addr locSet, vs locSet, strongOK bool, w witness
 }
 
 func (a *fa) freshSite(st memState, ins ssa.Instruction) (rootID, *cell) {
-	r := a.e.root(rootInfo{kind: rkFresh, site: ins})
+	return a.freshSiteRole(st, ins, 0)
+}
+
+// freshSiteRole distinguishes several fresh objects created by one call
+// instruction (one per result, one per store into argument memory).
+func (a *fa) freshSiteRole(st memState, ins ssa.Instruction, role int) (rootID, *cell) {
+	r := a.e.root(rootInfo{kind: rkFresh, site: ins, idx: role})
+	if role != 0 && a.weakSites[a.e.root(rootInfo{kind: rkFresh, site: ins})] {
+		a.weakSites[r] = true
+	}
 	c := st[r]
 	if c == nil {
 		c = &cell{}
@@ -926,11 +972,11 @@ func (a *fa) block(b *ssa.BasicBlock, st memState) bool {
 		case *ssa.Store:
 			_, direct := ins.Addr.(*ssa.FieldAddr)
 			_, isAlloc := ins.Addr.(*ssa.Alloc)
-			a.write(st, a.get(ins.Addr), a.valueSet(ins.Val), direct || isAlloc, witness{pos: ins.Pos(), what: "store to " + describeAddr(ins.Addr)})
+			a.write(st, a.get(ins.Addr), a.valueSet(ins.Val), direct || isAlloc, witness{pos: ins.Pos(), what: "store to " + describeAddr(ins.Addr), ins: ins})
 		case *ssa.MapUpdate:
 			vs := union(a.valueSet(ins.Value), a.valueSet(ins.Key))
 			f := a.mapKeyField(ins.Key)
-			a.write(st, a.withField(a.stripField(a.get(ins.Map)), f), vs, f >= 0, witness{pos: ins.Pos(), what: "map update of " + describeAddr(ins.Map)})
+			a.write(st, a.withField(a.stripField(a.get(ins.Map)), f), vs, f >= 0, witness{pos: ins.Pos(), what: "map update of " + describeAddr(ins.Map), ins: ins})
 		case *ssa.Send:
 			a.write(st, a.stripField(a.get(ins.Chan)), a.valueSet(ins.X), false, witness{pos: ins.Pos(), what: "channel send"})
 		case *ssa.Call:
@@ -942,6 +988,13 @@ func (a *fa) block(b *ssa.BasicBlock, st memState) bool {
 		case *ssa.Defer:
 			a.call(st, ins, ins.Common(), nil)
 		case *ssa.Return:
+			if a.collect {
+				ri := retInfo{ins: ins, st: st.clone()}
+				for _, r := range ins.Results {
+					ri.vals = append(ri.vals, a.valueSet(r))
+				}
+				a.retCells = append(a.retCells, ri)
+			}
 			for i, r := range ins.Results {
 				if i >= len(a.sum.ret) || !e.pointerLike(r.Type()) {
 					continue
@@ -1136,7 +1189,7 @@ func (a *fa) call(st memState, ins ssa.Instruction, c *ssa.CallCommon, res *ssa.
 }
 
 // mapLoc translates one summary location of a callee into caller locations.
-func (a *fa) mapLoc(st memState, ins ssa.Instruction, l loc, args []locSet, cont locSet, depth int) locSet {
+func (a *fa) mapLoc(st memState, ins ssa.Instruction, l loc, args []locSet, cont locSet, depth int, role int) locSet {
 	ri := a.e.roots[l.root()]
 	switch ri.kind {
 	case rkParam:
@@ -1151,11 +1204,11 @@ func (a *fa) mapLoc(st memState, ins ssa.Instruction, l loc, args []locSet, cont
 			return a.deepVia(st, args[ri.idx], ri.via)
 		}
 	case rkFreshRet:
-		r, c := a.freshSite(st, ins)
+		r, c := a.freshSiteRole(st, ins, role)
 		if depth == 0 && len(cont) > 0 {
 			var cs locSet
 			for _, x := range cont {
-				cs = union(cs, a.mapLoc(st, ins, x, args, nil, 1))
+				cs = union(cs, a.mapLoc(st, ins, x, args, nil, 1, role))
 			}
 			c.all = union(c.all, cs)
 			for k, s := range c.fields {
@@ -1171,10 +1224,10 @@ func (a *fa) mapLoc(st memState, ins ssa.Instruction, l loc, args []locSet, cont
 	return nil
 }
 
-func (a *fa) mapExported(st memState, ins ssa.Instruction, ex exported, args []locSet) locSet {
+func (a *fa) mapExported(st memState, ins ssa.Instruction, ex exported, args []locSet, role int) locSet {
 	var res locSet
 	for _, l := range ex.roots {
-		res = union(res, a.mapLoc(st, ins, l, args, ex.cont, 0))
+		res = union(res, a.mapLoc(st, ins, l, args, ex.cont, 0, role))
 	}
 	return res
 }
@@ -1187,7 +1240,7 @@ func (a *fa) applySummary(st memState, ins ssa.Instruction, callee *ssa.Function
 	}
 	sort.Slice(keys, func(i, j int) bool { return keys[i] < keys[j] })
 	np := len(callee.Params)
-	for _, l := range keys {
+	for wi, l := range keys {
 		ri := e.roots[l.root()]
 		isParam := ri.kind == rkParam || ri.kind == rkParamVia
 		isFree := isParam && ri.idx >= np
@@ -1198,19 +1251,21 @@ func (a *fa) applySummary(st memState, ins ssa.Instruction, callee *ssa.Function
 		} else if isFree {
 			continue // applied where the closure was created
 		}
-		target := a.mapLoc(st, ins, l, args, nil, 1)
+		target := a.mapLoc(st, ins, l, args, nil, 1, 0)
+		a.curArgs, a.curCall = args, ins
 		var stored locSet
 		if ex := s.storesInto[l]; ex != nil {
-			stored = a.mapExported(st, ins, *ex, args)
+			stored = a.mapExported(st, ins, *ex, args, 100+wi)
 		}
 		a.write(st, target, stored, false, witness{pos: ins.Pos(), what: "call of " + fnName(callee), callee: callee, cloc: l})
+		a.curArgs, a.curCall = nil, nil
 	}
 	if atCreation {
 		return nil
 	}
 	res := make([]locSet, len(s.ret))
 	for i, ex := range s.ret {
-		res[i] = a.mapExported(st, ins, ex, args)
+		res[i] = a.mapExported(st, ins, ex, args, i)
 	}
 	return res
 }
